@@ -95,6 +95,11 @@ type c05Client struct {
 	*Store
 	Inject func(c c05Call) error
 	Seen   func(c c05Call, obj client.Object)
+	// StrictRV: like the API server does for custom resources (customResourceStrategy.
+	// AllowUnconditionalUpdate is false), refuse an Update - of the object or of its status - that
+	// carries no resourceVersion ("metadata.resourceVersion: must be specified for an update").
+	// simstore accepts such an update unconditionally.
+	StrictRV bool
 }
 
 func (c *c05Client) call(verb string, obj client.Object, key *client.ObjectKey, sub string) c05Call {
@@ -109,6 +114,9 @@ func (c *c05Client) call(verb string, obj client.Object, key *client.ObjectKey, 
 }
 
 func (c *c05Client) do(cl c05Call, obj client.Object, f func() error) error {
+	if c.StrictRV && cl.Verb == "update" && obj.GetResourceVersion() == "" {
+		return kerrors.NewInvalid(schema.GroupKind{Group: "example.org", Kind: cl.Kind}, cl.Name, nil)
+	}
 	if c.Inject != nil {
 		if err := c.Inject(cl); err != nil {
 			return err
@@ -512,6 +520,11 @@ func c05RunSeq(s c05SeqScn) (c05SeqObs, []Mon) {
 			if after["Synced"].Status == "True" && old["Synced"].Status != "True" {
 				mon("C05:synced-set-on-error", fmt.Sprintf("step %d: a reconcile that did not complete (phase %q err %q paused %v lost %q disturb %q) set Synced=True", i, step.Phase, step.Err, step.Paused, step.Lost, step.Disturb))
 			}
+		}
+		// a reconcile that does not complete but stores a status stores Synced=False (ReconcileError /
+		// ReconcilePaused): a stale Synced=True must not survive it
+		if !step.cleanSuccess() && so.Wrote && after["Synced"].Status != "False" {
+			mon("C05:synced-not-false-after-failure", fmt.Sprintf("step %d: a reconcile that did not complete (phase %q err %q paused %v) stored a status whose Synced is %q", i, step.Phase, step.Err, step.Paused, after["Synced"].Status))
 		}
 		// functions cannot forge: every function condition carries reason Fn/Forged, which the
 		// system conditions never carry
